@@ -438,6 +438,13 @@ class Interp:
             for k in n.keywords:
                 base[k.arg] = self.value(k.value, env)
             return (True, base)
+        if isinstance(fn, ast.Name) and fn.id == 'frozenset' and len(n.args) <= 1 and not n.keywords:
+            if not n.args:
+                return (True, set())
+            seq = self.value(n.args[0], env)
+            if isinstance(seq, (list, tuple, set, range)):
+                return (True, set(seq))
+            raise Unknown('frozenset() of an uncomputable value (%s)' % loc(n))
         if isinstance(fn, ast.Name) and fn.id in ('list', 'sorted', 'set', 'tuple', 'reversed') and len(n.args) <= 1 and not n.keywords:
             if not n.args:
                 return (True, {'list': [], 'sorted': [], 'set': set(), 'tuple': (), 'reversed': []}[fn.id])
@@ -576,6 +583,9 @@ class Interp:
         params = [a.arg for a in callee.args.args]
         params_all = list(params)
         skip_self = bool(params) and params[0] in ('self', 'cls') and isinstance(call.func, ast.Attribute)
+        if skip_self and params[0] == 'self' and isinstance(call.func.value, ast.Name) and call.func.value.id not in ('self', 'cls') and call.func.value.id[:1].isupper() \
+                and len(call.args) + len(call.keywords) >= len(params) - len(callee.args.defaults) and call.args and isinstance(call.args[0], ast.Name) and call.args[0].id == 'self':
+            skip_self = False         # Class.method(self, ...): the receiver is passed explicitly
         if skip_self:
             params = params[1:]
         if isinstance(getattr(callee, '_parent', None), (ast.FunctionDef, ast.AsyncFunctionDef)) or isinstance(getattr(callee, '_func', None), (ast.FunctionDef, ast.AsyncFunctionDef)):
@@ -585,8 +595,27 @@ class Interp:
             # facts about the receiver and about class-level names (Class.CONSTANT) stay valid inside the callee; the caller's locals do not
             e2 = {k: v for k, v in env.items() if isinstance(k, str) and (k in ('self', 'cls') or k.startswith('self.') or k.startswith('cls.') or (k[:1].isupper() and '.' in k))}
         defaults = callee.args.defaults
+        supplied = set(params[:len(call.args)]) | {k.arg for k in call.keywords if k.arg}
         for p, d in zip(params[len(params) - len(defaults):], defaults):
-            e2[p] = self.value(d, {})         # (a lambda default becomes a Lam closing over the empty environment)
+            try:
+                e2[p] = self.value(d, {})         # (a lambda default becomes a Lam closing over the empty environment)
+            except Crash:
+                raise
+            except Unknown:
+                if p in supplied:
+                    continue                  # the default is not used by this call
+                # a default naming a class-level constant of the callee's class (evaluated in the class body's scope)
+                cls_ = getattr(callee, '_cls', None)
+                scope = {}
+                if cls_ is not None:
+                    for st_ in cls_.body:
+                        tg_ = st_.targets[0] if isinstance(st_, ast.Assign) and len(st_.targets) == 1 else (st_.target if isinstance(st_, ast.AnnAssign) and st_.value is not None else None)
+                        if isinstance(tg_, ast.Name):
+                            try:
+                                scope[tg_.id] = Interp(depth=self.depth + 1, budget=5000).value(st_.value, dict(scope))
+                            except Unknown:
+                                pass
+                e2[p] = self.value(d, scope)
         if len(call.args) > len(params):
             raise Unknown('call of %s with more arguments than parameters' % callee.name)
         for p, a in zip(params, call.args):
@@ -617,6 +646,11 @@ class Interp:
             for k2, v2 in fe.items():
                 if isinstance(k2, str) and k2.startswith(rn + '.'):
                     env[call.func.value.id + k2[len(rn):]] = v2
+        if not skip_self and params_all and params_all[0] == 'self' and call.args and isinstance(call.args[0], ast.Name) and call.args[0].id == 'self' and isinstance(call.func, ast.Attribute):
+            # Class.method(self, ...): attribute facts the callee (re)bound on the explicitly passed receiver are the caller's facts afterwards
+            for k2, v2 in fe.items():
+                if isinstance(k2, str) and k2.startswith('self.'):
+                    env[k2] = v2
         for nm, args, k in fe.get('<effects>', []):
             self.nodes.append(sub.nodes[k])
             env.setdefault('<effects>', []).append((nm, args, len(self.nodes) - 1))
@@ -974,6 +1008,25 @@ class Interp:
                     except Exception:
                         e[st.target.id] = Opaque()
                 return [], [e]
+            if isinstance(st.target, ast.Attribute) and unparse(st.target) in e and type(st.op) in _BIN:
+                # attribute facts are kept by their text (self._len += n)
+                key_ = unparse(st.target)
+                cur = e[key_]
+                try:
+                    val = self.value(st.value, e)
+                except Crash:
+                    raise
+                except Unknown:
+                    val = Opaque()
+                if isinstance(cur, (int, str, bytes)) and isinstance(val, type(cur)) and not isinstance(cur, bool):
+                    try:
+                        e[key_] = _BIN[type(st.op)](cur, val)
+                    except Exception:      # noqa: BLE001
+                        e[key_] = Opaque()
+                    return [], [e]
+                if not isinstance(cur, (list, dict, set)):
+                    e[key_] = Opaque()
+                    return [], [e]
             if self._effectful(st, e):
                 raise Unknown('augmented store into a tracked container: %s' % stmt_text(st))
             return [], [e]
